@@ -34,7 +34,8 @@ def run(ctx):
         runs = ["%d 2500 %s 60 %s" % (ctx.seed * 10 + k, wd, tinyfo) for k in range(4)] + \
                ["%d 1500 %s 60 %s layouts" % (ctx.seed * 10 + 7 + k, wd, tinyfo) for k in range(2)]
     for k, a in enumerate(runs):
-        mism = ctx.stream("c17.prog/%d" % k, [fcdrv], env=gocommon.fc_env("c17", a), timeout=3000, max_samples=1)
+        extra = {"FC_VERIF_CORPUS": os.path.join(vlib.VERIF, "corpus", "C17")} if k == 0 else None
+        mism = ctx.stream("c17.prog/%d" % k, [fcdrv], env=gocommon.fc_env("c17", a, extra), timeout=3000, max_samples=1)
         # a differing read-back (sem.lower) is a broken correspondence, not yet a failing input: the
         # failing input, if there is one, is a program whose stdout differs (c01.prog / sem.prog)
         behav = [m for m in mism if not m[0].startswith("(sem.lower")]
@@ -44,7 +45,7 @@ def run(ctx):
         if struct:
             ctx.notes.append("sem.lower: the Go emitted for %d functions differs from the lowering model; first: model=%s emitted=%s" % (len(struct), struct[0][1][:1500], struct[0][2][:1500]))
     shutil.rmtree(wd, ignore_errors=True)
-    ctx.finish(rule="type-directed random programs of the tinyfo profile (0-2 helper functions + an entry function each) in batches of 60: real tinyfo binary -> go build -> run, stdout vs the Lean reference semantics on the abstract program (c01.prog, sem.prog) and vs the stdout of fc's translation of the same text; Go-core read-back of every function tinyfo emitted vs the lowering model (sem.lower); feature distribution in coverage.distribution; distinct = distinct abstract programs")
+    ctx.finish(rule="type-directed random programs of the tinyfo profile (0-2 helper functions + an entry function each) in batches of 60: real tinyfo binary -> go build -> run, stdout vs the Lean reference semantics on the abstract program (c01.prog, sem.prog) and vs the stdout of fc's translation of the same text; Go-core read-back of every function tinyfo emitted vs the lowering model (sem.lower); a boundary corpus (corpus/C17: nested records and field chains) through the same path; feature distribution in coverage.distribution; distinct = distinct abstract programs")
 
 
 def replay(ctx, path):
